@@ -2,6 +2,18 @@
 PY = "/venv/bin/python"
 
 REGISTRY = {
+    "C08": {
+        "modules": ["inject"],
+        "level": "proof",
+        "level_text": "get_injection_requests and find_injections are verified against complete functional contracts over ordered maps (loop invariants over the key sequence): exactly the public, "
+                      "not-yet-set annotated names are requested; each is filled with the very object under the same name, else under '<component>_<name>' (identity, falsy values included), "
+                      "of the annotated type; otherwise MagicInjectError/TypeError.",
+        "level_note": "Objects/types are uninterpreted references, isinstance/hasattr uninterpreted predicates (reflection). The MagicRobot side (_collect_injectables, _create_component(s), "
+                      "_setup_vars: what get_type_hints/dir return, ordering 'all injection before any setup()') is reflection-bound: assumed, covered by the bounded native stand-in only.",
+        "design_ref": "DESIGN.md section 5 C08",
+        "replay": [PY, "native/replay_c08.py"],
+        "standins": {"quick": {"bounded: generated robot definitions through the real MagicRobot._create_components (injection targets, identity, errors, setup order, component order)": [PY, "native/replay_c08.py"]}},
+    },
     "C15": {
         "modules": ["stateful"],
         "level": "proof",
@@ -93,6 +105,8 @@ for _pid, _txt in {
 }.items():
     REGISTRY[_pid] = {"modules": _ROBOT_MODS, "verify_modules": ["robot", "selector"], "level": "proof", "level_text": _txt, "level_note": _ROBOT_NOTE,
                       "design_ref": f"DESIGN.md section 5 {_pid}"}
+for _pid in ("C05", "C06"):
+    REGISTRY[_pid]["standins"] = {"quick": {"bounded: generated robot definitions through the real _create_components: declaration order of components (base classes first), setup() once after all injection": [PY, "native/replay_c08.py"]}}
 REGISTRY["C14"] = {"modules": _ROBOT_MODS, "verify_modules": ["selector", "robot"], "level": "proof",
                    "level_text": "Lifecycle half: contracts of run/start/periodic/disable/_on_autonomous_enable/_on_iteration with a typestate ghost per mode: the chosen mode (dashboard string if it names a mode, else the chooser) "
                                  "gets on_enable once, one on_iteration(t) per loop iteration with non-decreasing t, on_disable once; no other mode is touched. Discovery half (__init__): see level_note.",
